@@ -11,6 +11,9 @@ use std::sync::{Condvar, Mutex, MutexGuard};
 
 pub type PathId = u32;
 
+/// pseudo path id of the gate point "about to open the LOCK file"
+pub const LOCK_POINT: PathId = u32::MAX - 1;
+
 #[derive(Clone, Copy, PartialEq, Eq, Debug, Hash, PartialOrd, Ord)]
 pub enum Role {
     Caller = 0,
